@@ -286,6 +286,14 @@ def corpus():
           mkrow(o(datetime.date(2022, 6, 15)), "Sell", None, sh=D(30), aps=D(12), com=D(0), cur="USD", rate=D(13, 1))]
     c.append((cc, o(datetime.date(2022, 3, 10)), False))
     c.append((cc, o(datetime.date(2022, 3, 10)), True))
+    # a kept purchase in USD with an explicit rate of exactly 1 (no written row has another rate): the rate cell
+    # must survive, a blank rate on a USD row would have to be looked up
+    r1 = [mkrow(o(datetime.date(2022, 1, 10)), "Buy", None, sh=D(100), aps=D(10), com=None, cur="USD", rate=D(1)),
+          mkrow(o(datetime.date(2022, 3, 1)), "Buy", None, sh=D(50), aps=D(8), com=None, cur="USD", rate=D(1)),
+          mkrow(o(datetime.date(2022, 3, 15)), "Sell", None, sh=D(20), aps=D(5), com=None, cur="USD", rate=D(1)),
+          mkrow(o(datetime.date(2022, 6, 15)), "Sell", None, sh=D(30), aps=D(12), com=None, cur="USD", rate=D(1))]
+    c.append((r1, o(datetime.date(2022, 3, 10)), False))
+    c.append((r1, o(datetime.date(2022, 3, 10)), True))
     # regression cases of the fixed zero-cell panic (Proofs/C10Examples.v wit5, wit6; known-findings.d/C10.json
     # "fixed"): a sale with the forced cell 0!; the full history computes a superficial loss from the spouse's
     # purchase (ignored: forced), the re-run only sees a tiny later purchase and computes a loss that rounds to
